@@ -16,7 +16,6 @@ VDB_RULE = ("vdb stream: one evaluation = one operation (commit on frontier / on
             "defects (key holding the empty value at X scanned from below the frontier, 734ff49; keys created after X / rolled "
             "back scanned at X and at the frontier, 522bff7) with random keys, through views, snapshots with own writes and "
             "subsets; distinct = distinct (op,result) lines")
-            "commits/pops; distinct = distinct (op,result) lines")
 VDB_MEM_RULE = ("; vdb-mem stream: the in-memory manager db.NewMemDBManager (the per-account store of the unconfirmed pool) over an "
                 "empty root or a root database that already holds 1-3 versions, driven through the same operations (commit on "
                 "the frontier - one time in four re-committing an identifier that was popped before -, pop, views at current / "
@@ -286,7 +285,7 @@ PROPS = {
     },
     "C06": {
         "module": "ZenonVerif.Props.C06",
-        "streams": [S("vdb", 400, 20000, arg="mix=pop"), S("ledger", 40, 2000), S("sync-batches", 300, 6000, timeout=3000)],
+        "streams": [S("vdb", 400, 20000, arg="mix=pop"), S("ledger", 40, 2000), S("sync-batches", 300, 6000, timeout=3000), S("pool-node", 8, 150, driver=False)],
         "rule": VDB_RULE + "; pop-heavy mix: views are opened before a branch switch and re-read after it",
         "partial": "pool-after-switch and consensus statistics after a switch are monitor-only: the ledger stream rolls the producing "
                    "node back by 1-3 momentums (pool must be empty, conservation at the pool state) and the sync-batches stream compares "
